@@ -1,2 +1,3 @@
 import PrqlModel.Model.Target
+import PrqlModel.Model.Text
 import PrqlModel.Props.C18
